@@ -36,8 +36,11 @@ def repo():
     return os.environ.get("PV_REPO", "/repo")
 
 
-def load_ast(path):
+def load_ast(path, hooks=True):
+    # every build of /verif compiles the library with -DPRIMITIV_VERIF_HOOKS; users build without it:
+    # translate() reads both variants and requires them to be the same program
     cmd = ["clang++", "-std=c++11", "-fsyntax-only", "-x", "c++", "-I", repo(),
+           "-DPRIMITIV_VERIF_HOOKS" if hooks else "-UPRIMITIV_VERIF_HOOKS",
            "-Xclang", "-ast-dump=json", "-Xclang", "-ast-dump-filter=calculate_shifts", path]
     p = subprocess.run(cmd, stdout=subprocess.PIPE, stderr=subprocess.PIPE, text=True, timeout=120)
     if p.returncode != 0:
@@ -72,6 +75,27 @@ def is_u64(node):
     return qual(node) in U64_TYPES
 
 
+# (bits, signed) of the integer types of the x86-64 Linux ABI the library is built for
+INT_TYPES = {"bool": (1, False), "char": (8, True), "signed char": (8, True), "unsigned char": (8, False),
+             "short": (16, True), "unsigned short": (16, False), "int": (32, True), "unsigned int": (32, False),
+             "long": (64, True), "unsigned long": (64, False), "long long": (64, True), "unsigned long long": (64, False)}
+
+
+def cast_literal(v, node):
+    """value of the non-negative literal v after an integral conversion to the type of `node`"""
+    ty = qual(node)
+    if ty not in INT_TYPES:
+        raise Unsupported("integral cast of a literal to " + ty)
+    bits, signed = INT_TYPES[ty]
+    if ty == "bool":
+        return 1 if v else 0
+    if signed:
+        if v >= 2 ** (bits - 1):
+            raise Unsupported("literal %d does not fit the signed type %s it is converted to" % (v, ty))
+        return v
+    return v % (2 ** bits)      # conversion to an unsigned type: modulo 2^bits (narrowing changes the value)
+
+
 class Tr:
     """Expressions become (tree, kind): tree = ('var', n) | ('lit', v) | ('bin', op, a, b);
     kind in {'u64', 'bool', 'lit'} ('lit' = non-negative integer literal of any integer type,
@@ -104,9 +128,11 @@ class Tr:
             if ck in ("LValueToRValue", "NoOp"):
                 return sub
             if ck == "IntegralCast":
+                if sub[1] == "lit":             # literal converted to another width: by the width of the target type
+                    return (("lit", cast_literal(sub[0][1], e)), "lit")
                 if is_u64(e):
-                    return (sub[0], "u64" if sub[1] != "lit" else "lit")
-                if sub[1] in ("lit", "bool"):   # bool -> int promotion, literal of another width
+                    return (sub[0], "u64")
+                if sub[1] == "bool" and qual(e) in INT_TYPES:   # bool -> int promotion: 0 / 1 fit every integer type
                     return sub
                 raise Unsupported("integral cast to " + qual(e))
             if ck == "IntegralToBoolean":
@@ -208,8 +234,18 @@ class Tr:
 
 
 def translate(path=None):
+    """the program of the hooks-on build (what every harness runs); the hooks-off variant (what users
+    build) must translate to the same program"""
+    on = translate_variant(path, True)
+    off = translate_variant(path, False)
+    if on != off:
+        raise Unsupported("calculate_shifts differs between the -DPRIMITIV_VERIF_HOOKS build (checked here) and the plain build")
+    return on
+
+
+def translate_variant(path, hooks):
     path = path or os.path.join(repo(), "primitiv/core/numeric_utils.h")
-    fn = load_ast(path)
+    fn = load_ast(path, hooks)
     tr = Tr()
     params = [c for c in fn["inner"] if c["kind"] == "ParmVarDecl"]
     if len(params) != 1:
@@ -290,8 +326,10 @@ def write_if_changed(path, content):
     except OSError:
         pass
     os.makedirs(os.path.dirname(path), exist_ok=True)
-    with open(path, "w") as f:
+    tmp = "%s.tmp.%d" % (path, os.getpid())
+    with open(tmp, "w") as f:
         f.write(content)
+    os.replace(tmp, path)
     return True
 
 
